@@ -88,6 +88,14 @@ fn history<X: Sx, Y: Sx>(ctx: &Ctx, idx: u64, l: usize, steps: usize, exhaustive
             _ => (i, rand_bytes(&mut r, 8), "fresh"),
         });
     }
+    if l > 64 {
+        // positions at the far end and around the byte boundary of a position counter
+        for i in [l - 1, l - 2, 253, 254, 255, 256, 257, 127, 128, 64] {
+            if i < l {
+                plan.push((i, rand_bytes(&mut r, 9), "far-position"));
+            }
+        }
+    }
     for (step, (i, mut newv, kind)) in plan.into_iter().enumerate() {
         if kind == "same-as-old" {
             newv = msgs[i].clone();
@@ -191,7 +199,7 @@ pub fn scenarios(ctx: &Ctx) -> Vec<Scenario> {
             v.push(scenario(format!("shake/L{l}"), move |c| history::<Shake, Sha>(c, i, l, steps, true)));
         }
     }
-    for &l in ctx.t(&[16usize, 64][..], &[8usize, 16, 33, 64, 100, 257][..]) {
+    for &l in ctx.t(&[16usize, 64, 256, 300][..], &[8usize, 16, 33, 64, 100, 255, 256, 257, 300, 1000][..]) {
         let i = idx;
         idx += 1;
         v.push(scenario(format!("sha/L{l}"), move |c| history::<Sha, Shake>(c, i, l, steps, false)));
